@@ -392,16 +392,18 @@ func (fc *funcContext) translateStmt(stmt ast.Stmt, label *types.Label) {
 			fc.Printf("%s", fc.translateAssign(lhs, s.Rhs[0], s.Tok == token.DEFINE))
 
 		case len(s.Lhs) > 1 && len(s.Rhs) == 1:
+			lhss := fc.lhsOperandsFirst(s.Lhs)
 			tupleVar := fc.newLocalVariable("_tuple")
 			fc.Printf("%s = %s;", tupleVar, fc.translateExpr(s.Rhs[0]))
 			tuple := fc.typeOf(s.Rhs[0]).(*types.Tuple)
-			for i, lhs := range s.Lhs {
+			for i, lhs := range lhss {
 				lhs = astutil.RemoveParens(lhs)
 				if !isBlank(lhs) {
 					fc.Printf("%s", fc.translateAssign(lhs, fc.newIdent(fmt.Sprintf("%s[%d]", tupleVar, i), tuple.At(i).Type()), s.Tok == token.DEFINE))
 				}
 			}
 		case len(s.Lhs) == len(s.Rhs):
+			lhss := fc.lhsOperandsFirst(s.Lhs)
 			tmpVars := make([]string, len(s.Rhs))
 			for i, rhs := range s.Rhs {
 				tmpVars[i] = fc.newLocalVariable("_tmp")
@@ -411,7 +413,7 @@ func (fc *funcContext) translateStmt(stmt ast.Stmt, label *types.Label) {
 				}
 				fc.Printf("%s", fc.translateAssign(fc.newIdent(tmpVars[i], fc.typeOf(s.Lhs[i])), rhs, true))
 			}
-			for i, lhs := range s.Lhs {
+			for i, lhs := range lhss {
 				lhs = astutil.RemoveParens(lhs)
 				if !isBlank(lhs) {
 					fc.Printf("%s", fc.translateAssign(lhs, fc.newIdent(tmpVars[i], fc.typeOf(lhs)), s.Tok == token.DEFINE))
@@ -697,6 +699,39 @@ func (fc *funcContext) translateLoopingStmt(cond func() string, body *ast.BlockS
 	} else {
 		fc.Printf("}")
 	}
+}
+
+// lhsOperandsFirst evaluates the operands of the index expressions and pointer
+// indirections on the left of a tuple assignment into temporaries: Go evaluates
+// them (and the right-hand sides) before any of the assignments is carried out.
+func (fc *funcContext) lhsOperandsFirst(lhss []ast.Expr) []ast.Expr {
+	save := func(e ast.Expr) ast.Expr {
+		if _, isIdent := e.(*ast.Ident); !isIdent && fc.pkgCtx.Types[e].Value != nil {
+			return e
+		}
+		v := fc.newLocalVariable("_lhs")
+		fc.Printf("%s = %s;", v, fc.translateExpr(e))
+		return fc.newIdent(v, fc.typeOf(e))
+	}
+	out := make([]ast.Expr, len(lhss))
+	for i, lhs := range lhss {
+		out[i] = lhs
+		switch l := astutil.RemoveParens(lhs).(type) {
+		case *ast.IndexExpr:
+			out[i] = fc.setType(&ast.IndexExpr{X: save(l.X), Lbrack: l.Lbrack, Index: save(l.Index), Rbrack: l.Rbrack}, fc.typeOf(l))
+		case *ast.StarExpr:
+			out[i] = fc.setType(&ast.StarExpr{Star: l.Star, X: save(l.X)}, fc.typeOf(l))
+		case *ast.SelectorExpr:
+			if sel, ok := fc.selectionOf(l); ok {
+				if _, isPtr := fc.typeOf(l.X).Underlying().(*types.Pointer); isPtr {
+					newSel := &ast.SelectorExpr{X: save(l.X), Sel: l.Sel}
+					fc.pkgCtx.additionalSelections[newSel] = sel
+					out[i] = fc.setType(newSel, fc.typeOf(l))
+				}
+			}
+		}
+	}
+	return out
 }
 
 func (fc *funcContext) translateAssign(lhs, rhs ast.Expr, define bool) string {
